@@ -1478,6 +1478,10 @@ def rule_ioretmisc(text):
     apps = []
     ws = r"\s*"
     table = [
+        (r"if" + ws + r"let" + ws + r"\[\(_," + ws + r"1\)\]" + ws + r"=" + ws + r"(\w+)" + ws + r"\." + ws + r"as_slice\(\)" + ws + r"\{", r"if \1.len() == 1 && \1[0].1 == 1 {", "R-slicepat",
+         "definition of the slice pattern `[(_, 1)]`: exactly one element whose second component is 1"),
+        (r"return" + ws + r"(self" + ws + r"\." + ws + r"\w+\([^;()]*\))" + ws + r"\." + ws + r"map_err\(\|error\|" + ws + r"self\.poison_writes\(error\)\)" + ws + r";",
+         r"return match \1 { Ok(v_) => Ok(v_), Err(error) => Err(self.poison_writes(error)) };", "R-maperr", "definition of Result::map_err with a closure that poisons the handle"),
         (r"for" + ws + r"chunk" + ws + r"in" + ws + r"(\w+)" + ws + r"\." + ws + r"chunks\(" + ws + r"(\w+)" + ws + r"\)" + ws + r"\{",
          r"let mut ci_: usize = 0; while ci_ < \1.len() { let ce_: usize = min_usize(\2, \1.len() - ci_) + ci_; let chunk = slice_subrange(\1.as_slice(), ci_, ce_); ci_ = ce_;",
          "R-chunks", "definition of slice::chunks(n) as an index loop: consecutive sub-slices of n elements, the last one shorter"),
